@@ -589,7 +589,8 @@ class HealSparseMap(object):
         # Check numpy data type for everything but wide_mask single value
         if not self._is_wide_mask or (self._is_wide_mask and not is_single_value):
             if self._is_rec_array:
-                if self._sparse_map.dtype != _values.dtype:
+                # The byte order does not matter (maps read from FITS files are big-endian).
+                if self._sparse_map.dtype.newbyteorder('=') != _values.dtype.newbyteorder('='):
                     raise ValueError("Data-type mismatch between sparse_map and values")
             elif self._sparse_map.dtype.type != _values.dtype.type:
                 raise ValueError("Data-type mismatch between sparse_map and values")
